@@ -191,6 +191,13 @@ Definition scan_num (t : text) : option (token * nat) :=
   | [] => nodot
   end.
 
+(* characters no terminal of cel.lark can start with: lark raises
+   UnexpectedCharacters, i.e. a parse error *)
+Definition unlexable (c : ascii) : bool :=
+  let n := code c in
+  ((128 <=? n) || ((n <? 32) && negb (is_ws c)) || (n =? 127) ||
+   (n =? 92) || (n =? 35) || (n =? 36) || (n =? 64) || (n =? 96) || (n =? 126) || (n =? 94) || (n =? 59))%N.
+
 (* a number directly followed by one of these is something the model does not
    cover (1u, 0x1F, 1e, 1.2.3, 1.size()) *)
 Definition bad_follow (o : option ascii) : bool :=
@@ -230,6 +237,7 @@ Fixpoint lex (skip : nat) (t : text) {struct t} : lexres :=
                       else lcons tok (lex (len - 1) r)
                   | None => LexOOF
                   end
+                else if unlexable c then LexErr
                 else LexOOF
             end
       end
